@@ -150,14 +150,13 @@ theorem frame_wrap_roundtrip (cfg : SubCfg) (st : StereoCfg) (chans : List (List
     (hch : 1 ≤ chans.length ∧ chans.length ≤ 8) (hlen : ∀ c ∈ chans, c.length = n) (hn : 1 ≤ n ∧ n < 2 ^ 16)
     (hb : 1 ≤ bps ∧ bps ≤ 24) (hx : ∀ c ∈ chans, ∀ x ∈ c, SubFrame.inRange bps x = true)
     (hnum : number < 2 ^ 32) (hmax : cfg.maxP ≤ 14) (hlog : ∀ e ∈ log, e.Ok)
-    (hord : ∀ c sh p, OEvent.qlpc c sh p ∈ log → c.length ≤ 24)
     (h : encodeFrame cfg st chans bps rate number log = some (f, log'))
     (info : StreamInfo) (hinfo : info.channels = chans.length ∧ info.bps = bps) (checkCrc : Bool) (more : List Nat) :
     ∃ fb, f.bits rfcCrc8 rfcCrc16 = some fb ∧
       parseFrame info checkCrc (packBytes fb ++ more) = .ok (f, more) ∧
       decodeFrameMode false f = .ok (Rfc.interleave chans) := by
   obtain ⟨hok, fb, hfb, _⟩ := frame_good cfg st chans bps rate number n log log' f hch hlen hn hb hx hnum hmax hlog 24
-    hord h info hinfo
+    (OEvent.ok_order_le log hlog) h info hinfo
   exact ⟨fb, hfb, parseFrame_read f info checkCrc fb more hfb (hok (Nat.le_refl _)),
     frame_wrapdec cfg st chans bps rate number n log log' f hch hlen hn hb hx hmax hlog h⟩
 
